@@ -259,5 +259,40 @@ class HistGen:
         return {"commit": cid, "committer": committer, "adds": adds, "removes": removes_now, "opts": opts}
 
 
+def block_join_history(rng, i, name, quick=True, suite=1, providers=None):
+    """Directed history: a full tree of 8-16 leaves; one commit with a path removes a whole aligned block
+    of leaves (i even) or the committer's sibling leaf plus the neighbouring pair (i odd) and adds FEWER
+    members than it removed, so that the joiners' direct paths run over filtered nodes below, at and
+    above the common ancestor with the committer; then members all over the tree commit with a path.
+    Returns (HistGen, marks) with marks = [(op index of the observation, epoch)]."""
+    n = rng.choice([8, 9, 12, 16])
+    g = HistGen(rng, n_pool=n + 4, name=name, suite=suite, providers=providers)
+    g.start()
+    marks = []
+    g.round(app=False, n_props=0, by_value_adds=n - 1, by_value_removes=0, path_required=rng.chance(1, 2), echo=False)
+    marks.append((len(g.ops) - 1, g.epoch))
+    order = list(g.in_group)                       # leaf k holds order[k]
+    if i % 2 == 0:
+        size = rng.choice([2, 2, 4])
+        b = rng.choice([x for x in range(0, n - size, size)])
+        block = list(range(b, b + size))
+        cidx = rng.choice([k for k in range(n) if k not in block])
+        g.round_explicit(order[cidx], n_adds=1 + rng.below(size - 1) if size > 2 else 1, remove_names=[order[k] for k in block], tree_ext=rng.chance(1, 2))
+    else:
+        q = rng.below((n - 1) // 4 if (n - 1) // 4 > 0 else 1)
+        cidx = 4 * q + rng.below(2)
+        gone = [k for k in (cidx ^ 1, 4 * q + 2, 4 * q + 3) if k < n]
+        g.round_explicit(order[cidx], n_adds=1, remove_names=[order[k] for k in gone], tree_ext=rng.chance(1, 2))
+    marks.append((len(g.ops) - 1, g.epoch))
+    for _ in range(3 if quick else 5):
+        g.round_explicit(rng.choice(g.in_group), n_adds=0, remove_names=[])
+        marks.append((len(g.ops) - 1, g.epoch))
+    g.round_explicit(g.in_group[-1], n_adds=0, remove_names=[])      # the member on the far right
+    marks.append((len(g.ops) - 1, g.epoch))
+    g.round_explicit(order[-1] if order[-1] in g.in_group else g.in_group[0], n_adds=0, remove_names=[])
+    marks.append((len(g.ops) - 1, g.epoch))
+    return g, marks
+
+
 def errs(records):
     return [r for r in records if r.get("ok") is False or r.get("crash")]
